@@ -240,7 +240,7 @@ fn numeric_family(ctx: &mut Ctx, ps: &mut Parsers) {
     ];
     const UNITS: &[&str] = &["cup", "tsp", "tbsp", "oz", "lb", "fl oz", "pint", "g", "kg", "ml", "l", "grains", ""];
     let big300 = format!("1{}", "0".repeat(300));
-    let n = ctx.budget(3_000, 300_000);
+    let n = ctx.budget(3_000, 900_000);
     let all = Extensions::all().bits();
     for _ in 0..n {
         let mut text = String::new();
@@ -342,7 +342,7 @@ pub fn run(ctx: &mut Ctx) {
         }
     }
     numeric_family(ctx, &mut ps);
-    let n = ctx.budget(8_000, 1_500_000);
+    let n = ctx.budget(8_000, 4_500_000);
     for i in 0..n {
         match i % 4 {
             0 | 1 | 2 => {
